@@ -684,7 +684,11 @@ func (g *svGen) op() string {
 		a := r.pick(svAttack)
 		in := pjoin(g.pickIn(v, 'D'), r.pick(fsNames))
 		g.o.count("path:attack")
-		switch r.intn(16) {
+		k := r.intn(16)
+		if g.links && r.chance(1, 3) {
+			k = 14
+		}
+		switch k {
 		case 0:
 			return fmt.Sprintf("RF %s %s", vs, tok(a))
 		case 1:
